@@ -76,8 +76,10 @@ func (ex *Exec) callAt(x ssa.Value, cc *ssa.CallCommon, h *Heap, reach Term) {
 	}
 	// dynamic call through a function value
 	sig := cc.Value.Type().Underlying().(*types.Signature)
+	fld := ""
+	var dynVars map[string]SV
+	var dynPre *Heap
 	if ex.depth == 0 && ex.contract != nil && len(ex.contract.DynCalls) > 0 {
-		fld := ""
 		switch v := cc.Value.(type) {
 		case *ssa.Field:
 			fld = fieldName(v.X.Type(), v.Field)
@@ -88,13 +90,14 @@ func (ex *Exec) callAt(x ssa.Value, cc *ssa.CallCommon, h *Heap, reach Term) {
 			}
 		}
 		ex.counters["dyn."+fld]++
-		vars := ex.paramVars()
+		dynVars = ex.paramVars()
 		for i, a := range cc.Args {
-			vars[fmt.Sprintf("arg%d", i)] = SV{ex.val(a), a.Type()}
+			dynVars[fmt.Sprintf("arg%d", i)] = SV{ex.val(a), a.Type()}
 		}
-		sc := ex.specCtx(vars, h.clone())
+		dynPre = h.clone()
+		sc := ex.specCtx(dynVars, dynPre)
 		for _, dc := range ex.contract.DynCalls {
-			if dc.Field == fld {
+			if dc.Field == fld && !dc.Ensures {
 				ex.q.oblige(fmt.Sprintf("%s/pre@dyn.%s#%d.%s", ex.q.fnName, fld, ex.counters["dyn."+fld], dc.Clause.Label), "pre", reach, sc.evalBool(dc.Clause),
 					ex.P.fset.Position(x.Pos()), "precondition of the call through "+fld+": "+dc.Clause.Text)
 			}
@@ -102,7 +105,23 @@ func (ex *Exec) callAt(x ssa.Value, cc *ssa.CallCommon, h *Heap, reach Term) {
 	}
 	ex.q.note("%s: call through function value %s: heap havoced, result unconstrained", ex.fn.Name(), cc.Value.Name())
 	*h = *ex.havocAllKeep(h, reach)
-	ex.setResults(x, sig, ex.havocResults(sig, reach))
+	rs := ex.havocResults(sig, reach)
+	ex.setResults(x, sig, rs)
+	if dynVars != nil {
+		for i, r := range rs {
+			dynVars[fmt.Sprintf("result%d", i)] = SV{r, sig.Results().At(i).Type()}
+			if i == 0 {
+				dynVars["result"] = dynVars["result0"]
+			}
+		}
+		sc := &SpecCtx{ex: ex, pkg: ex.fn.Pkg, vars: dynVars, heap: h, old: dynPre}
+		for _, dc := range ex.contract.DynCalls {
+			if dc.Field == fld && dc.Ensures {
+				ex.q.assume(implies(reach, sc.evalBool(dc.Clause)))
+				ex.q.note("ASSUMED about every function reachable through %s: %s", fld, dc.Clause.Text)
+			}
+		}
+	}
 }
 
 func (ex *Exec) havocResults(sig *types.Signature, reach Term) []Term {
